@@ -3540,6 +3540,8 @@ class DecVar(Vars):
             self.event_rest = False
 
         self.event_adapt.append(list(self.dro_model.series_scen[events]))
+        self.dro_model.pupdate = True
+        self.dro_model.dupdate = True
 
     def affadapt(self, rvars):
 
@@ -3737,6 +3739,8 @@ class DecVarSub(VarSub):
 
         self.rand_adapt[dec_indices_flat, rand_indices_flat] = 1
         self.dvars.rand_adapt = self.rand_adapt
+        self.dro_model.pupdate = True
+        self.dro_model.dupdate = True
 
     def __le__(self, other):
 
